@@ -50,13 +50,18 @@ def run(chk):
     chk.assume("input tables are well formed (no bit at or above 2^n): property C02")
     chk.assume("cross-word and word regimes are decided for the listed n only (loops unrolled, mode=unrolled); n above %d: same code path, not claimed" % nmax)
     count = 0
-    for kind in ("dyn", "static"):
+    runs = [("dyn", env), ("static", env)]
+    if chk.tier == "thorough":
+        env_rel = Env(F.load("rel"))     # release configuration: debug assertions and overflow checks off
+        runs += [("dyn", env_rel), ("static", env_rel)]
+    for kind, env in runs:
         K = env.kinds[kind]
+        cfg_tag = "" if env.facts.cfg == "dbg" else " [rel]"
         for n in range(1, nmax + 1):
             # ---- flip
             for i in range(n):
                 for mname, inplace in (("flip_inplace", True), ("flip", False)):
-                    key = "%s::%s n=%d i=%d" % (K.adt, mname, n, i)
+                    key = "%s::%s n=%d i=%d%s" % (K.adt, mname, n, i, cfg_tag)
                     try:
                         v, d, res, after, pc = call_unary(env, kind, n, mname, [i], inplace)
                         if v == PROVED:
@@ -76,7 +81,7 @@ def run(chk):
                     for mname, inplace in (("swap_inplace", True), ("swap", False)):
                         if not inplace and chk.tier == "quick" and n > 6 and (i + j) % 2:
                             continue  # copying form = clone + in-place (checked for half the pairs in quick)
-                        key = "%s::%s n=%d i=%d j=%d" % (K.adt, mname, n, i, j)
+                        key = "%s::%s n=%d i=%d j=%d%s" % (K.adt, mname, n, i, j, cfg_tag)
                         try:
                             v, d, res, after, pc = call_unary(env, kind, n, mname, [i, j], inplace)
                             if v == PROVED:
@@ -94,7 +99,7 @@ def run(chk):
             # ---- swap_adjacent
             for i in range(n - 1):
                 for mname, inplace in (("swap_adjacent_inplace", True), ("swap_adjacent", False)):
-                    key = "%s::%s n=%d i=%d" % (K.adt, mname, n, i)
+                    key = "%s::%s n=%d i=%d%s" % (K.adt, mname, n, i, cfg_tag)
                     try:
                         v, d, res, after, pc = call_unary(env, kind, n, mname, [i], inplace)
                         if v == PROVED:
@@ -108,7 +113,7 @@ def run(chk):
                     count += 1
             # ---- cofactors / from_cofactors / round trip
             for i in range(n):
-                key = "%s::cofactors n=%d i=%d" % (K.adt, n, i)
+                key = "%s::cofactors n=%d i=%d%s" % (K.adt, n, i, cfg_tag)
                 try:
                     it = env.interp()
                     st = State()
@@ -136,7 +141,7 @@ def run(chk):
                 except Undecided as e:
                     v, d = UNDECIDED, e.cause
                 chk.add("C03.cofactors", key, v, d, where=where_of(K.method("cofactors")))
-                key = "%s::from_cofactors n=%d i=%d" % (K.adt, n, i)
+                key = "%s::from_cofactors n=%d i=%d%s" % (K.adt, n, i, cfg_tag)
                 try:
                     it = env.interp()
                     st = State()
@@ -158,7 +163,7 @@ def run(chk):
                      ("swap_adjacent_inplace", 9, [6]), ("swap_adjacent_inplace", 9, [7]), ("swap_adjacent_inplace", 10, [7]), ("swap_adjacent_inplace", 10, [8]), ("swap_adjacent", 10, [8]),
                      ("flip_inplace", 9, [8]), ("flip_inplace", 10, [7]), ("flip_inplace", 10, [9])]
             for mname, n, idx in extra:
-                key = "%s::%s n=%d idx=%s" % (K.adt, mname, n, idx)
+                key = "%s::%s n=%d idx=%s%s" % (K.adt, mname, n, idx, cfg_tag)
                 try:
                     v, d, res, after, pc = call_unary(env, kind, n, mname, idx, mname.endswith("inplace"))
                     if v == PROVED:
@@ -168,7 +173,7 @@ def run(chk):
                     v, d = UNDECIDED, e.cause
                 chk.add("C03.large-stride", key, v, d, where=where_of(K.method(mname)))
             for n, i in ((9, 8), (10, 7), (10, 9)):
-                key = "%s::from_cofactors n=%d i=%d" % (K.adt, n, i)
+                key = "%s::from_cofactors n=%d i=%d%s" % (K.adt, n, i, cfg_tag)
                 try:
                     it = env.interp()
                     st = State()
@@ -181,7 +186,7 @@ def run(chk):
                 except Undecided as e:
                     v, d = UNDECIDED, e.cause
                 chk.add("C03.large-stride", key, v, d, where=where_of(K.method("from_cofactors")))
-                key = "%s::cofactors n=%d i=%d" % (K.adt, n, i)
+                key = "%s::cofactors n=%d i=%d%s" % (K.adt, n, i, cfg_tag)
                 try:
                     it = env.interp()
                     st = State()
